@@ -208,16 +208,17 @@ Fixpoint ohas_default (t : oty) : bool :=
   | OPrim _ => false
   | OUnit _ => true
   | ORaw _ => false
-  | OText XString | OText XBytes | OText XBytesMut | OText XAsciiString => true
+  | OText XString | OText XBytes | OText XBytesMut | OText XAsciiString | OText XStr => true
   | OText _ => false
   | OSeq SSlice _ => false
   | OSeq _ _ => true
   | OArray n t' => (n <=? 32) && ohas_default t'
   | OProd PTuple ts => (Nat.leb (length ts) 12) && forallb (fun x => ohas_default x) ts
+  | OProd (PStruct _ _ _) ts => forallb (fun x => ohas_default x) ts
   | OProd _ _ => false
   | OSum KOption _ => true
   | OSum _ _ => false
-  | OWrap WBox t' | OWrap WRc t' | OWrap WArc t' | OWrap WCell t' | OWrap WRefCell t' => ohas_default t'
+  | OWrap WBox t' | OWrap WRc t' | OWrap WArc t' | OWrap WCell t' | OWrap WRefCell t' | OWrap WCow t' => ohas_default t'
   | OWrap _ _ => false
   | ORef _ => false
   end.
